@@ -660,9 +660,40 @@ func (e *Env) evalCall(n *ECall) SVal {
 		need(1)
 		c.declareFun("be64.dec", []Sort{SStr}, SInt)
 		return SVal{T: app(SInt, "be64.dec", arg(0).T)}
+	case "allof":
+		// allof(T.f) or allof(pkg.T.f): field f of every object of struct type T (the whole field array), to state that
+		// no object's f changed: allof(Model.List) == old(allof(Model.List))
+		need(1)
+		sel, ok := n.Args[0].(*ESel)
+		if !ok {
+			return e.errf("allof expects Type.field")
+		}
+		tyname := ""
+		switch tx := sel.X.(type) {
+		case *EIdent:
+			tyname = tx.Name
+		case *ESel:
+			if p, ok := tx.X.(*EIdent); ok {
+				tyname = p.Name + "." + tx.Name
+			}
+		}
+		t := e.lookupType(tyname)
+		if t == nil {
+			return e.errf("allof: unknown type %q", tyname)
+		}
+		path, _, ok := fieldPath(t, sel.Name)
+		if !ok || len(path) != 1 {
+			return e.errf("allof: no direct field %s in %s", sel.Name, tyname)
+		}
+		return SVal{T: e.heap(e.cur, c.fieldArrayName(t, path[0]))}
 	case "allocated":
 		need(1)
-		return SVal{T: tLe(arg(0).T, e.heap(e.cur, c.allocName()))}
+		a := arg(0).T
+		if a.Sort == SSlice {
+			// a slice is allocated when its backing array is
+			a = mk(SInt, "(s.arr "+a.S+")")
+		}
+		return SVal{T: tLe(a, e.heap(e.cur, c.allocName()))}
 	case "fresh":
 		// fresh(x): x was allocated during the call (not allocated in the old state)
 		need(1)
